@@ -8,13 +8,15 @@
   line ever equals).
 -/
 import ClairModel.Proofs.CodecAccept
+import ClairModel.Proofs.ReportJson
 import ClairModel.Gen.Enums
+import ClairModel.Gen.ReportTags
 
 -- every variable of a property statement is bound explicitly: a misspelt name is an error, not a new variable
 set_option autoImplicit false
 
 namespace ClairModel.Props.C17
-open ClairModel ClairModel.Bytes ClairModel.Codec
+open ClairModel ClairModel.Bytes ClairModel.Codec ClairModel.ReportJson
 open ClairModel.Gen.Enums
 
 /-- Shape of the regenerated Severity table the other theorems rely on:
@@ -247,23 +249,8 @@ theorem archop_scan_spec (src : Src) (n : Nat)
 theorem version_text_roundtrip_partial (kind : Bytes) (v : List Int) (old : Version)
     (hk : kind ≠ []) (hc : 58 ∉ kind) (hv : v.length = 10) (hold : old.v.length = 10)
     (hr : ∀ x ∈ v, inInt32 x) :
-    versionUnmarshal old (versionMarshal ⟨kind, v⟩) = some ⟨kind, v⟩ := by
-  have hke : kind.isEmpty = false := by cases kind <;> simp_all
-  simp only [versionMarshal, hke, Bool.false_eq_true, if_false, versionUnmarshal]
-  rw [cut_append 58 kind _ hc]
-  simp only
-  match v, hv, hr with
-  | x :: xs, hv, hr =>
-    have hparts : ∀ q ∈ showInt x :: xs.map showInt, 46 ∉ q := by
-      intro q hq
-      have : q ∈ (x :: xs).map showInt := by simpa using hq
-      rcases List.mem_map.1 this with ⟨y, _, rfl⟩
-      exact showInt_no 46 (by decide) (by decide) y
-    rw [List.map_cons, splitOn_joinWith 46 _ _ hparts, ← List.map_cons]
-    rw [fillSlots_showInt (x :: xs) old.v 0 hold (by omega) hr]
-    have hlen : old.v.length ≤ 0 + (x :: xs).length := by omega
-    rw [List.drop_eq_nil_of_le hlen]
-    simp
+    versionUnmarshal old (versionMarshal ⟨kind, v⟩) = some ⟨kind, v⟩ :=
+  versionUnmarshal_marshal kind v old hk hc hv hold hr
 
 /-- The repaired defect: a text with more than ten `.`-separated components is
     rejected (the old code indexed the slot array out of range and panicked). -/
@@ -308,15 +295,8 @@ theorem version_empty_kind_counterexample :
     checksum of that algorithm's size) prints to text that parses back to it. -/
 theorem digest_roundtrip (d : Digest) (hb : ∀ b ∈ d.checksum, b < 256)
     (hs : digestSize d.algo = some d.checksum.length) :
-    digestParse (digestRepr d) = some d := by
-  have hc : 58 ∉ d.algo := by
-    unfold digestSize at hs
-    split at hs
-    · rename_i h; rw [h]; decide
-    · split at hs
-      · rename_i h; rw [h]; decide
-      · cases hs
-  simp only [digestParse, digestRepr, cut_append 58 d.algo _ hc, hexDecode_hexEncode _ hb, hs, if_true]
+    digestParse (digestRepr d) = some d :=
+  digestParse_repr d hb hs
 
 /-- The parser accepts only the two known algorithms with a checksum of exactly
     that algorithm's size, made of bytes. -/
@@ -480,6 +460,160 @@ theorem version_error_keeps_slot_count (old : Version) (text : Bytes) :
   split
   · rfl
   · exact fillSlotsX_length _ _ _
+
+/-! ## The JSON form of the reports (Model/ReportJson.lean)
+
+  `W` / `T` with their codecs stand for cpe.WFN (C19's codec; the wrappers of
+  marshaling.go are below) and time.Time (the standard library's): every
+  theorem holds for all codecs, under the hypothesis that the leaf values in
+  the report survive their own text form (`LeafOK`). -/
+
+/-- The leaf codecs of the report encoders: the given WFN and time codecs and
+    the two enums over the regenerated tables. -/
+def stdLeaves {W T : Type} (wfn : LeafCodec W) (time : LeafCodec T) : Leaves W T :=
+  ⟨wfn, time, severityCodec severityNameBytes severityIndex, archOpCodec archOpNameBytes archOpIndex⟩
+
+/-- Tie A: the struct fields, JSON keys, `omitempty` / `json:"-"` options and
+    field types the encoders and decoders of the model are written against are
+    the ones in the sources (regenerated on every run), and none of the report
+    structs declares a (un)marshaler of its own. -/
+theorem report_tags_match_model :
+    Gen.ReportTags.tags = expectedTags ∧ Gen.ReportTags.customMarshalers = [] := ⟨rfl, rfl⟩
+
+/-- No two fields of one struct share a JSON key, even case-insensitively
+    (encoding/json silently drops fields whose keys collide). -/
+theorem report_keys_distinct :
+    ∀ st ∈ expectedTags, distinctFold ((st.2.filter fun f => !f.2.2.2.1).map fun f => f.2.1) = true := by
+  decide
+
+/-- Every Severity member is a leaf the JSON codec carries. -/
+theorem severity_leaf_ok (n : Nat) (h : n + 1 < severityIndex.length) :
+    LeafOK (severityCodec severityNameBytes severityIndex) n := by
+  obtain ⟨t, h1, h2⟩ := severity_roundtrip n h
+  exact ⟨t, h1, by simp [severityCodec, h2]⟩
+
+theorem archop_leaf_ok (n : Nat) (h : n + 1 < archOpIndex.length) :
+    LeafOK (archOpCodec archOpNameBytes archOpIndex) n := by
+  obtain ⟨t, h1, h2⟩ := archop_roundtrip n h
+  exact ⟨t, h1, by simp [archOpCodec, h2]⟩
+
+section
+variable {W T : Type} (wfn : LeafCodec W) (time : LeafCodec T)
+
+/-- A Package — with its whole `Source` chain — decodes from its JSON form to
+    itself minus the three `json:"-"` fields, when its normalized versions and
+    CPEs are values their codecs carry and the chain is shorter than the
+    decoder's nesting limit. -/
+theorem package_json_roundtrip (p : Package W) (j : J) (hp : PackageOK (stdLeaves wfn time) p)
+    (he : encPackage (stdLeaves wfn time) p = some j) :
+    decPackage (stdLeaves wfn time) j = some (stripPackage p) :=
+  decPackage_encPackage _ p j he hp
+
+theorem distribution_json_roundtrip (d : Dist W) (j : J) (hd : LeafOK wfn d.cpe)
+    (he : encDist (stdLeaves wfn time) d = some j) : decDist (stdLeaves wfn time) j = some d :=
+  decDist_encDist _ d j he hd
+
+/-- …including a Repository all of whose `omitempty` strings are empty. -/
+theorem repository_json_roundtrip (r : Repo W) (j : J) (hr : LeafOK wfn r.cpe)
+    (he : encRepo (stdLeaves wfn time) r = some j) : decRepo (stdLeaves wfn time) j = some r :=
+  decRepo_encRepo _ r j he hr
+
+/-- An Environment keeps the difference between a nil and an empty `RepositoryIDs`. -/
+theorem environment_json_roundtrip (e : Env) (he : DigestOK e.introducedIn) : decEnv (encEnv e) = some e :=
+  decEnv_encEnv e he
+
+theorem range_json_roundtrip (r : Range) (hl : VersionOK r.lower) (hu : VersionOK r.upper) :
+    decRange (encRange r) = some r :=
+  decRange_encRange r hl hu
+
+theorem vulnerability_json_roundtrip (v : Vuln W T) (j : J) (hv : VulnOK (stdLeaves wfn time) v)
+    (he : encVuln (stdLeaves wfn time) v = some j) :
+    decVuln (stdLeaves wfn time) j = some (stripVuln v) :=
+  decVuln_encVuln _ rfl v j he hv
+
+/-- An IndexReport decodes from its JSON form to itself minus what `json:"-"`
+    drops (`Files`, and PackageDB / Filepath / RepositoryHint of every
+    package): nil maps stay nil, empty maps stay empty, nil pointers inside
+    maps and slices stay nil. -/
+theorem index_report_json_roundtrip (r : IndexReport W) (j : J) (hr : IROK (stdLeaves wfn time) r)
+    (he : encIR (stdLeaves wfn time) r = some j) : decIR (stdLeaves wfn time) j = some (stripIR r) :=
+  decIR_encIR _ r j he hr
+
+theorem vulnerability_report_json_roundtrip (r : VulnReport W T) (j : J) (hr : VROK (stdLeaves wfn time) r)
+    (he : encVR (stdLeaves wfn time) r = some j) : decVR (stdLeaves wfn time) j = some (stripVR r) :=
+  decVR_encVR _ rfl r j he hr
+
+/-- A scan of a report that has been through JSON gives the same result as a
+    scan of the original: for every scan that is a function of the index
+    records (every matcher, store and enricher) and does not read the
+    `json:"-"` fields, the two vulnerability reports are equal up to those
+    fields — and `IndexRecords` panics on the one exactly when on the other. -/
+theorem scan_invariant_under_json (core : List (Record W) → Findings W T)
+    (hcore : ∀ recs, core (recs.map stripRecord) = core recs)
+    (r r' : IndexReport W) (j : J) (hr : IROK (stdLeaves wfn time) r)
+    (he : encIR (stdLeaves wfn time) r = some j) (hd : decIR (stdLeaves wfn time) j = some r') :
+    (scan core r').map stripVR = (scan core r).map stripVR := by
+  rw [index_report_json_roundtrip wfn time r j hr he] at hd
+  cases hd
+  exact scan_strip core hcore r
+
+/-- The hypothesis on the manifest digest is needed: a report with the zero
+    Digest encodes (as "") but does not decode (finding `digest-zero-value`). -/
+theorem index_report_zero_hash_counterexample :
+    ∃ j, encIR (stdLeaves wfn time) (zeroIR : IndexReport W) = some j ∧
+      decIR (stdLeaves wfn time) j = none := by
+  refine ⟨_, rfl, ?_⟩
+  have e1 : look (render (irBlocksOf (zeroIR : IndexReport W) .null .null .null)) kManifestHash =
+      some (.str []) := by look_field
+  simp [decIR, decIRObj, e1, dText, digestCodec, digestParse, cut]
+
+end
+
+/-- nil and empty are different documents and both survive: a nil map is
+    `null` and decodes to nil, an empty map is `{}` and decodes to an empty
+    non-nil map; likewise slices. -/
+theorem nil_and_empty_survive {β : Type} (e : β → J) (d : J → Option β) :
+    dMap d (some (eMap e none)) = some none ∧ dMap d (some (eMap e (some []))) = some (some []) ∧
+    dSlice d (some (eSlice e none)) = some none ∧ dSlice d (some (eSlice e (some []))) = some (some []) :=
+  ⟨rfl, rfl, rfl, rfl⟩
+
+/-- What a `string` field accepts: nothing, `null`, or a JSON string. -/
+theorem string_field_accepts_iff (o : Option J) :
+    (dStr o).isSome = true ↔ o = none ∨ o = some .null ∨ ∃ s, o = some (.str s) := by
+  cases o with
+  | none => simp [dStr]
+  | some j => cases j <;> simp [dStr]
+
+/-- What a field of a `TextUnmarshaler` type accepts: nothing, `null`, or a
+    JSON string its `UnmarshalText` accepts — never a number, bool, array or object. -/
+theorem text_field_accepts_iff {α : Type} (c : LeafCodec α) (o : Option J) :
+    (dText c o).isSome = true ↔
+      o = none ∨ o = some .null ∨ ∃ s, o = some (.str s) ∧ (c.dec c.zero s).isSome = true := by
+  cases o with
+  | none => simp [dText]
+  | some j => cases j <;> simp [dText]
+
+/-- What a map field accepts: nothing, `null`, or an object all of whose values the element decoder accepts. -/
+theorem map_field_accepts_iff {β : Type} (d : J → Option β) (o : Option J) :
+    (dMap d o).isSome = true ↔
+      o = none ∨ o = some .null ∨ ∃ kv, o = some (.obj kv) ∧ ∀ p ∈ kv, (d p.2).isSome = true := by
+  cases o with
+  | none => simp [dMap]
+  | some j =>
+    cases j with
+    | obj kv =>
+      simp only [dMap, Option.isSome_map, reduceCtorEq, Option.some.injEq, J.obj.injEq, exists_eq_left', false_or]
+      induction kv with
+      | nil => simp
+      | cons a t ih =>
+        simp only [List.mapM_cons, List.mem_cons, forall_eq_or_imp]
+        cases hd : d a.2 with
+        | none => simp
+        | some v =>
+          simp only [Option.map_some, Option.isSome_some, true_and]
+          rw [← ih]
+          cases t.mapM fun p => (d p.2).map fun v => (p.1, v) <;> simp
+    | _ => simp [dMap]
 
 /-- Non-vacuity: a concrete version with extreme int32 slots meets the
     hypotheses of the round-trip theorem. -/
